@@ -47,7 +47,17 @@ RECIPES = {
     'paused_xfer': ['queue', 'initialize', 'set_some', 'start', 'pause'],
     'requeued': ['queue', 'fail', 'queue'],
     'init_rq': ['queue_r', 'initialize'],
+    'xfer_zero': ['queue', 'initialize', 'set_zero', 'start'],
+    'xfer_empty': ['queue', 'initialize', 'set_empty', 'start'],
+    'xfer_one': ['queue', 'initialize', 'set_onez', 'start', 'set_one'],
+    'xfer_onez': ['queue', 'initialize', 'set_onez', 'start'],
 }
+
+
+def data_of(v, F):
+    """(filesize, bytes) of an abstract data value (DataFs / DataBt in TransferCache.tla with n = F):
+    boundary sizes {0, 1, n} x bytes {0, part, all}."""
+    return {'some': (F, F // 2), 'full': (F, F), 'zero': (F, 0), 'empty': (0, 0), 'one': (1, 1), 'onez': (1, 0)}[v]
 ALL_RECIPES = '{' + ', '.join(f'"{n}"' for n in RECIPES) + '}'
 FIXTURE = os.path.join(REPO, 'tests', 'unit', 'resources', 'data')
 FIXTURE_KEYS = [('user0', '@abcdef\\file.mp3', '1'), ('user1', '@abcdef\\file.flac', '0')]
@@ -131,9 +141,9 @@ def _settings():
     return _SETTINGS[0]
 
 
-async def _life(loop, dirpath, ops, restart, events):
+async def _life(loop, dirpath, ops, restart, events, down0=()):
     from aioslsk.events import EventBus
-    from aioslsk.exceptions import InvalidStateTransition
+    from aioslsk.exceptions import InvalidStateTransition, PeerConnectionError
     from aioslsk.transfer.cache import TransferShelveCache
     from aioslsk.transfer.manager import TransferManager
     from aioslsk.transfer.model import AbortReason, FailReason, Transfer, TransferDirection
@@ -143,6 +153,7 @@ async def _life(loop, dirpath, ops, restart, events):
     bus = EventBus()
     network = _Stub()
     sent = []
+    down = set(down0)                 # peers to whom a queue request cannot be delivered
     never = loop.create_future()
 
     async def send_peer_messages(username, *messages, **kw):
@@ -151,6 +162,8 @@ async def _life(loop, dirpath, ops, restart, events):
             name = type(m).__qualname__
             if name.startswith('PeerTransferQueue.'):
                 sent.append([username, m.filename, '1'])
+                if username in down:
+                    raise PeerConnectionError(f'cannot connect to {username}')
             elif name.startswith('PeerTransferRequest.'):
                 sent.append([username, m.filename, '0'])
                 hang = True
@@ -264,6 +277,11 @@ async def _life(loop, dirpath, ops, restart, events):
                     events.append(dict(ev='mutate', k=k, op='queue', ok=bool(ok), mem=snap()))
                     await quiesce()
                 continue
+            elif kind in ('peerdown', 'peerup'):
+                if (kind == 'peerdown') == (op[1] in down):
+                    continue
+                (down.add if kind == 'peerdown' else down.discard)(op[1])
+                events.append(dict(ev=kind, u=op[1], mem=snap()))
             elif kind == 'write':
                 manager.write_cache()
                 events.append(dict(ev='write', mem=snap(), readback=readback()))
@@ -299,19 +317,21 @@ async def _life(loop, dirpath, ops, restart, events):
                            msg=str(exc)[:200], mem=[]))
 
 
-def run_life(dirpath, ops, restart):
+def run_life(dirpath, ops, restart, down0=(), clock=1000.0):
+    """One process life in a fresh virtual-time loop.  clock = where this process's monotonic clock
+    starts: its origin is arbitrary (boot), a new process / a reboot does not continue the old one."""
     events = []
-    _, loop = vloop.run(lambda lp: _life(lp, dirpath, ops, restart, events))
+    _, loop = vloop.run(lambda lp: _life(lp, dirpath, ops, restart, events, down0), start=clock)
     bad = [c for c in loop.unhandled if not isinstance(c.get('exception'), asyncio.CancelledError)]
     if bad:
         events.append(dict(ev='loop_exception', what=str(bad[0].get('message'))[:200], mem=[]))
     return events
 
 
-def run_life_subprocess(dirpath, ops, restart):
+def run_life_subprocess(dirpath, ops, restart, down0=(), clock=1000.0):
     """The same life in a fresh Python process (real pickling across processes)."""
     env = dict(os.environ, PYTHONPATH=VERIF, PYTHONHASHSEED='0', PYTHONDONTWRITEBYTECODE='1')
-    p = subprocess.run([sys.executable, '-m', 'harness.props.c17'], input=json.dumps(dict(dir=dirpath, ops=ops, restart=restart)),
+    p = subprocess.run([sys.executable, '-m', 'harness.props.c17'], input=json.dumps(dict(dir=dirpath, ops=ops, restart=restart, down=sorted(down0), clock=clock)),
                        env=env, cwd=VERIF, stdout=subprocess.PIPE, stderr=subprocess.PIPE, text=True, timeout=120)
     if p.returncode != 0:
         raise MachineryFailure(f'life subprocess failed rc={p.returncode}: {p.stderr[-1500:]}')
@@ -325,7 +345,7 @@ def life_main():
     use_repo()
     req = json.loads(sys.stdin.read())
     ops = [tuple(tuple(x) if isinstance(x, list) else x for x in op) for op in req['ops']]
-    print(json.dumps(run_life(req['dir'], ops, req['restart'])))
+    print(json.dumps(run_life(req['dir'], ops, req['restart'], req.get('down', ()), req.get('clock', 1000.0))))
 
 
 # ---------------------------------------------------------------------------
@@ -359,18 +379,17 @@ def recipe_shapes(tmp):
 def _recipe_ops(k, steps, data):
     out = []
     for o in steps:
-        if o == 'set_some':
-            out.append(('setdata', k, data['lp'], data['F'], data['F'] // 2))
-        elif o == 'set_full':
-            out.append(('setdata', k, data['lp'], data['F'], data['F']))
+        if o.startswith('set_'):
+            out.append(('setdata', k, data['lp']) + data_of(o[4:], data['F']))
         else:
             out.append(('mutate', k, o))
     return out
 
 
-def abstract_history(init_mem, labels, shapes):
-    """(initial manager content, action labels of a behaviour) -> abstract stimulus list."""
-    ops = []
+def abstract_history(init_state, labels, shapes):
+    """(initial state of a behaviour, its action labels) -> abstract stimulus list."""
+    init_mem = init_state['mem']
+    ops = [('peerdown', u) for u in sorted(init_state.get('failq', ()))]
     for k in sorted(init_mem):
         r = init_mem[k]
         name = shapes.get(_shape(k[2], r))
@@ -408,6 +427,10 @@ def abstract_history(init_mem, labels, shapes):
         elif name == 'StartEarly':
             ops.append(('start',))
             started = True
+        elif name in ('PeerDown', 'EnvDown'):
+            ops.append(('peerdown', a[0]))
+        elif name in ('PeerUp', 'EnvUp'):
+            ops.append(('peerup', a[0]))
         elif name == 'Cycle':
             pass                       # happens by itself when the loop runs
         else:
@@ -481,6 +504,8 @@ def concrete_ops(abs_ops, conc, dl_dir, rng):
         kind = op[0]
         if kind in ('add', 'remove'):
             ops.append((kind, conc.key(op[1])))
+        elif kind in ('peerdown', 'peerup'):
+            ops.append((kind, conc.users[op[1]]))
         elif kind == 'recipe':
             k = conc.key(op[1])
             for r in _recipe_ops(k, RECIPES[op[2]], dat(k)):
@@ -491,7 +516,7 @@ def concrete_ops(abs_ops, conc, dl_dir, rng):
         elif kind == 'data':
             k = conc.key(op[1])
             d = dat(k)
-            ops.append(('setdata', k, d['lp'], d['F'], d['F'] // 2 if op[2] == 'some' else d['F']))
+            ops.append(('setdata', k, d['lp']) + data_of(op[2], d['F']))
         else:
             ops.append(op)
     return ops
@@ -499,12 +524,16 @@ def concrete_ops(abs_ops, conc, dl_dir, rng):
 
 def split_lives(ops):
     """[(restart?, [ops])] : a life ends with stopwrite / oldwrite / crash."""
-    lives, cur, restart = [], [], False
+    lives, cur, restart, deferred = [], [], False, []
     for op in ops:
         if op[0] == 'restart':
             if cur:
                 lives.append((restart, cur))
-            cur, restart = [], True
+            cur, restart = list(deferred), True
+            deferred = []
+            continue
+        if restart is None and op[0] in ('peerdown', 'peerup'):
+            deferred.append(op)       # the environment changes while no process runs: seen by the next one
             continue
         cur.append(op)
         if op[0] in ('stopwrite', 'oldwrite', 'crash'):
@@ -515,13 +544,21 @@ def split_lives(ops):
     return [(bool(r), o) for r, o in lives]
 
 
-def run_history(ops, root, cross_process=False):
+def run_history(ops, root, cross_process=False, clocks=(1000.0,)):
+    """clocks[i % len] = start of the monotonic clock of life i."""
     dirpath = tempfile.mkdtemp(dir=root)
     events = []
+    down = set()
     try:
-        for restart, life_ops in split_lives(ops):
-            ev = (run_life_subprocess if cross_process else run_life)(dirpath, life_ops, restart)
+        for i, (restart, life_ops) in enumerate(split_lives(ops)):
+            ev = (run_life_subprocess if cross_process else run_life)(dirpath, life_ops, restart, sorted(down),
+                                                                      clocks[i % len(clocks)])
             events += ev
+            for e in ev:
+                if e['ev'] == 'peerdown':
+                    down.add(e['u'])
+                elif e['ev'] == 'peerup':
+                    down.discard(e['u'])
             if ev and ev[-1]['ev'] in ('exc', 'loop_exception'):
                 break
     finally:
@@ -715,9 +752,9 @@ def collect_behaviours(chk: Check, thorough: bool, shapes):
         n = 0
         for p in paths:
             labels = [e[1] for e in p]
-            h = abstract_history(g.states[p[0][0]]['mem'], labels, shapes)
+            h = abstract_history(g.states[p[0][0]], labels, shapes)
             if h not in hist:
-                hist[h] = (label, _body_nontrivial(labels))
+                hist[h] = (label, _body_nontrivial(labels), tuple(lab.split('(')[0] for lab in labels))
                 n += 1
         chk.log(f'{label}: {len(g.states)} states, {len(g.edges)} edges, {len(paths)} cover paths, {n} histories')
         chk.cov[f'graph_edges:{label}'] = len(g.edges)
@@ -729,9 +766,9 @@ def collect_behaviours(chk: Check, thorough: bool, shapes):
         n = 0
         for b in behs:
             labels = [lab for lab, _ in b[1:]]
-            h = abstract_history(b[0][1]['mem'], labels, shapes)
+            h = abstract_history(b[0][1], labels, shapes)
             if h not in hist:
-                hist[h] = (f'sim:{cfg}', _body_nontrivial(labels))
+                hist[h] = (f'sim:{cfg}', _body_nontrivial(labels), ())
                 n += 1
         chk.log(f'simulation {cfg}: {len(behs)} behaviours, {n} new histories')
         chk.cov[f'sim_behaviours:{cfg}'] = len(behs)
@@ -764,7 +801,16 @@ def plan(chk: Check, thorough: bool, hist, concs):
         chk.rng.shuffle(nt)
         chk.rng.shuffle(tr)
         if src == 'cover_states':
-            pick = nt + tr[:len(tr) // 6]
+            # stratified by the shape of the behaviour (sequence of action names): half of every group
+            # that writes and loads, a quarter of every other group (the postlude writes and loads anyway)
+            groups = {}
+            for h in nt + tr:
+                groups.setdefault(hist[h][2], []).append(h)
+            pick = []
+            for pat in sorted(groups):
+                hs2 = groups[pat]
+                n = max(10, len(hs2) // 2) if hist[hs2[0]][1] else max(5, len(hs2) // 4)
+                pick += hs2[:n]
             out += [(h, (collide[0], plain[0])[i % 2]) for i, h in enumerate(sorted(pick, key=repr))]
         elif src == 'cover_sets':
             pick = sorted((nt + tr)[:300], key=repr)
@@ -828,9 +874,12 @@ def run(chk: Check, args):
             ops = concrete_ops(h, conc, dl_dir, chk.rng)
             cross = thorough and hi % 400 == 0
             n_sub += cross
-            ev = run_history(ops, root, cross_process=cross)
+            # where each life's monotonic clock starts (a restart / reboot does not continue the old one)
+            clocks = (1000.0,) if not thorough else chk.rng.choice([(1000.0,), (1000.0, 5.0), (5.0, 1000.0, 1.0e6)])
+            ev = run_history(ops, root, cross_process=cross, clocks=clocks)
             traces.append(ev)
-            metas.append(dict(history=h, concretisation=conc.cid, source=hist[h][0], cross_process=cross, ops=ops))
+            metas.append(dict(history=h, concretisation=conc.cid, source=hist[h][0], cross_process=cross, ops=ops,
+                              clocks=list(clocks)))
             chk.count((h, conc.cid), nontrivial=_nontrivial(ev))
         for cross in ((False, True) if thorough else (False,)):
             ev = fixture_history(root, cross_process=cross)
@@ -884,6 +933,11 @@ def run(chk: Check, args):
         'PeerTransferQueue and never answers PeerTransferRequest; cycles are observed at loop quiescence; what a '
         'cycle does with a QUEUED upload whose previous attempt is still in flight (and with that user\'s other '
         'queued uploads) is left to C06 - loaded transfers never have an attempt in flight, so for them the rule is exact',
+        'queue requests to a peer can be made undeliverable by the harness (PeerConnectionError from send_peer_messages); '
+        'whether a download whose request failed is tried again within the same life is left open, after a restart it '
+        'must be attempted like a fresh one; every life runs on its own monotonic clock (origin 1000 s virtual, thorough: '
+        'also lower / far higher origins), as a new process or a reboot does not continue the old clock',
+        'persisted sizes cover the boundaries filesize {None, 0, 1, n} x bytes {0, part, all}',
         'cache files of older releases are produced by the harness with the pinned key scheme '
         'sha256(username+remote_path+direction) and, for fmt=legacy, the field set of the repository fixture',
     ]
@@ -902,7 +956,8 @@ def replay(chk: Check, data: dict):
             ev = fixture_history(root, cross_process=bool(meta.get('cross_process')))
         else:
             ops = [tuple(_tuples(x) if not isinstance(x, dict) else x for x in op) for op in meta['ops']]
-            ev = run_history(ops, root, cross_process=bool(meta.get('cross_process')))
+            ev = run_history(ops, root, cross_process=bool(meta.get('cross_process')),
+                             clocks=tuple(meta.get('clocks') or (1000.0,)))
     finally:
         shutil.rmtree(root, ignore_errors=True)
     for e in ev:
